@@ -18,7 +18,17 @@ const XPathLang = "http://www.w3.org/1999/XPath"
 
 type Options struct {
 	Lang string // expression language of formal conditions ("" = expr)
+	// Rich: additionally emit everything the round-trip property quantifies over and that the
+	// plain rendering leaves out: documentation texts, olive task headers and properties (typed,
+	// untyped, value-less, with references), formal expressions carrying further attributes (id,
+	// language) before or after xsi:type, and text payloads whose meaning depends on inner
+	// whitespace (a conjunct that is true only if two consecutive blanks survive).
+	Rich bool
 }
+
+// WsGuard is a formal (expr-lang) conjunct that holds iff the two blanks inside the first
+// string literal are preserved.
+const WsGuard = ` && "a  b" != "a b"`
 
 var tag = map[string]string{
 	"start": "startEvent", "end": "endEvent", "task": "serviceTask", "xor": "exclusiveGateway",
@@ -102,8 +112,15 @@ func scope(p *prog.Program, sc string, w *strings.Builder, ind string, o Options
 			attrs += " parallelMultiple=\"true\""
 		}
 		fmt.Fprintf(w, "%s<bpmn:%s%s>\n", ind, t, attrs)
+		if o.Rich && (n.Kind == "task" || n.Kind == "xor" || n.Kind == "end") {
+			fmt.Fprintf(w, "%s  <bpmn:documentation>about %s:  two blanks,\n%s  a line break and a &lt;tag&gt;</bpmn:documentation>\n", ind, esc(n.Id), ind)
+		}
 		if n.Kind == "task" {
 			fmt.Fprintf(w, "%s  <bpmn:extensionElements>\n", ind)
+			if o.Rich {
+				fmt.Fprintf(w, "%s    <olive:taskHeaders>\n%s      <olive:header name=\"contentType\" value=\"application/json\" type=\"string\"/>\n%s      <olive:header name=\"plain\" value=\"v  1\"/>\n%s    </olive:taskHeaders>\n", ind, ind, ind, ind)
+				fmt.Fprintf(w, "%s    <olive:properties>\n%s      <olive:property name=\"pa\" value=\"1\" type=\"integer\"/>\n%s      <olive:property name=\"pn\" value=\"\"/>\n%s      <olive:property name=\"po\" value=\"{&#34;k&#34;: &#34;v&#34;}\" type=\"object\"/>\n%s      <olive:property name=\"pr\" value=\"\" type=\"string\" ref=\"$nosuch.path\"/>\n%s    </olive:properties>\n", ind, ind, ind, ind, ind, ind)
+			}
 			fmt.Fprintf(w, "%s    <olive:taskDefinition type=\"service\" retries=\"%d\"/>\n", ind, n.Retries)
 			if len(n.Writes) > 0 {
 				fmt.Fprintf(w, "%s    <olive:results>\n", ind)
@@ -143,6 +160,16 @@ func scope(p *prog.Program, sc string, w *strings.Builder, ind string, o Options
 			lang := ""
 			if o.Lang != "" && o.Lang != ExprLang {
 				lang = fmt.Sprintf(" language=\"%s\"", esc(o.Lang))
+			}
+			if o.Rich && (o.Lang == "" || o.Lang == ExprLang) {
+				// further attributes around xsi:type (alternating sides), whitespace-sensitive text
+				pre, post := "", fmt.Sprintf(" id=\"ce_%s\" language=\"%s\"", esc(f.Id), ExprLang)
+				if len(f.Id)%2 == 0 {
+					pre, post = strings.TrimPrefix(post, " ")+" ", ""
+				}
+				fmt.Fprintf(w, "%s<bpmn:sequenceFlow id=\"%s\" sourceRef=\"%s\" targetRef=\"%s\"><bpmn:conditionExpression %sxsi:type=\"bpmn:tFormalExpression\"%s>%s</bpmn:conditionExpression></bpmn:sequenceFlow>\n",
+					ind, esc(f.Id), esc(f.Src), esc(f.Dst), pre, post, esc(CondText(f.Cond, o.Lang)+WsGuard))
+				continue
 			}
 			fmt.Fprintf(w, "%s<bpmn:sequenceFlow id=\"%s\" sourceRef=\"%s\" targetRef=\"%s\"><bpmn:conditionExpression xsi:type=\"bpmn:tFormalExpression\"%s>%s</bpmn:conditionExpression></bpmn:sequenceFlow>\n",
 				ind, esc(f.Id), esc(f.Src), esc(f.Dst), lang, esc(CondText(f.Cond, o.Lang)))
